@@ -60,7 +60,8 @@ _SPECS = [  # (fmt, file name the image is called by, size, dpi kwarg)
     # the same format, pixel size and resolution as b.bmp and therefore the same BYTE LENGTH, other pixels: two files no file-system
     # attribute tells apart (via "samepath" writes one image after the other to one path)
     ("BMP", "b2.bmp", (6, 2), (300, 300)),
-]
+    # eight more PNGs: a deck can hold more than ten images of ONE format (image1.png .. image10.png and beyond)
+] + [("PNG", "p%d.png" % k, (2 + k, 3), None) for k in range(1, 9)]
 
 
 def universe() -> list[dict]:
